@@ -180,13 +180,17 @@ pub fn record_lru(args: &Args) {
         out.emit(json!({"ev": "lreset", "cap": cap}));
         let mut lru: Lru<u64, u64> = Lru::new(cap);
         let mut next_val = 1u64;
+        // the keys given to the cache: in half of the segments the recorded key k stands for a 64-bit key whose LOW 32 bits are k % 3,
+        // i.e. several keys differ only above bit 32 (address-like keys; a cache that keeps a 32-bit digest of the key confuses them)
+        let wide_keys = rng.coin();
+        let key_of = move |k: usize| -> u64 { if wide_keys { (k % 3) as u64 | ((k as u64 + 1) << 33) } else { k as u64 } };
         for _ in 0..len {
             let k = rng.below(nkeys);
             let h = if per_call { rng.below(hrange) as u64 } else { hfun[k] };
             if rng.coin() {
                 let v = next_val;
                 next_val += 1;
-                match guarded(|| lru.insert(k as u64, v, h)) {
+                match guarded(|| lru.insert(key_of(k), v, h)) {
                     Ok(()) => out.emit(json!({"ev": "lins", "k": k, "v": v, "h": h})),
                     Err(m) => {
                         out.emit(json!({"ev": "lins", "k": k, "v": v, "h": h, "panic": m}));
@@ -194,7 +198,7 @@ pub fn record_lru(args: &Args) {
                     }
                 }
             } else {
-                match guarded(|| lru.get(k as u64, h)) {
+                match guarded(|| lru.get(key_of(k), h)) {
                     Ok(r) => out.emit(json!({"ev": "lget", "k": k, "h": h, "ret": r.map(|x| x as i64).unwrap_or(-1)})),
                     Err(m) => {
                         out.emit(json!({"ev": "lget", "k": k, "h": h, "panic": m}));
@@ -222,16 +226,19 @@ pub fn replay_lru(args: &Args) {
         let mut lru: Lru<u64, u64> = Lru::new(cap);
         let (mut failed, mut drifted) = (false, false);
         let mut got = vec![];
+        // every other behaviour is replayed with 64-bit keys that differ only above bit 32 (low 32 bits = k % 2)
+        let wide_keys = n % 2 == 0;
+        let key_of = |k: u64| -> u64 { if wide_keys { (k % 2) | ((k + 1) << 33) } else { k } };
         for op in v["ops"].as_array().unwrap() {
             steps += 1;
             if op[0] == "i" {
-                let (k, val, h) = (op[1].as_u64().unwrap(), op[2].as_u64().unwrap(), op[3].as_u64().unwrap());
+                let (k, val, h) = (key_of(op[1].as_u64().unwrap()), op[2].as_u64().unwrap(), op[3].as_u64().unwrap());
                 if guarded(|| lru.insert(k, val, h)).is_err() {
                     failed = true;
                     break;
                 }
             } else {
-                let (k, h, ret, last) = (op[1].as_u64().unwrap(), op[2].as_u64().unwrap(), op[3].as_i64().unwrap(), op[4].as_i64().unwrap());
+                let (k, h, ret, last) = (key_of(op[1].as_u64().unwrap()), op[2].as_u64().unwrap(), op[3].as_i64().unwrap(), op[4].as_i64().unwrap());
                 match guarded(|| lru.get(k, h)) {
                     Ok(r) => {
                         let r = r.map(|x| x as i64).unwrap_or(-1);
